@@ -262,6 +262,10 @@ pub struct CaseSpec {
     pub schedules: u32,
     /// build the rules from generated GRL text through GRLParser instead of Rule::new
     pub via_grl: bool,
+    /// the ParallelRuleEngine of every call first executes a DIFFERENT knowledge base of the same
+    /// name built by the same number of add_rule calls (the same rule names carrying the next
+    /// rule's condition, actions and salience, enabled flags inverted), then the real one
+    pub engine_reused: bool,
 }
 
 impl CaseSpec {
@@ -279,6 +283,7 @@ impl CaseSpec {
             "max_threads": self.max_threads,
             "min_rules_per_thread": self.min_rules_per_thread,
             "schedules": self.schedules,
+            "engine_first_ran_a_decoy_knowledge_base": self.engine_reused,
             "via_grl": self.via_grl,
         })
     }
@@ -311,6 +316,7 @@ impl CaseSpec {
             max_threads: j["max_threads"].as_u64()? as usize,
             min_rules_per_thread: j["min_rules_per_thread"].as_u64()? as usize,
             schedules: j["schedules"].as_u64()? as u32,
+            engine_reused: j["engine_first_ran_a_decoy_knowledge_base"].as_bool().unwrap_or(false),
             via_grl: j["via_grl"].as_bool().unwrap_or(false),
         })
     }
@@ -428,7 +434,8 @@ pub fn gen_case(rng: &mut Rng, n_rules: usize, max_threads: usize, min_rules: us
         let allow_not = !via_grl || rng.chance(1, 2);
         rules.push(RuleSpec { name, salience, enabled, cond: gen_cond(rng, depth, allow_not), actions });
     }
-    CaseSpec { rules, facts: gen_facts(rng), max_threads, min_rules_per_thread: min_rules, schedules, via_grl }
+    let engine_reused = rng.chance(1, 4);
+    CaseSpec { rules, facts: gen_facts(rng), max_threads, min_rules_per_thread: min_rules, schedules, via_grl, engine_reused }
 }
 
 // ------------------------------------------------------------------------------------------------
@@ -517,7 +524,8 @@ pub enum RunRes {
     Panicked(String),
 }
 
-/// One call of the real `execute_parallel` on a fresh knowledge base, fresh facts, fresh engine.
+/// One call of the real `execute_parallel` on a fresh knowledge base, fresh facts, fresh engine
+/// (or, with `engine_reused`, an engine that has just executed a decoy knowledge base).
 pub fn run_once(c: &CaseSpec, rules: &[Rule], parallel: bool) -> RunRes {
     let r = catch_unwind(AssertUnwindSafe(|| {
         let kb = KnowledgeBase::new("c19");
@@ -543,6 +551,22 @@ pub fn run_once(c: &CaseSpec, rules: &[Rule], parallel: bool) -> RunRes {
                     facts.set(&key, Value::Integer(1));
                     Ok(Value::Null)
                 });
+            }
+        }
+        if c.engine_reused && !rules.is_empty() {
+            let decoy = KnowledgeBase::new("c19");
+            for (i, r) in rules.iter().enumerate() {
+                let mut d = rules[(i + 1) % rules.len()].clone();
+                d.name = r.name.clone();
+                d.enabled = !r.enabled;
+                if let Err(e) = decoy.add_rule(d) {
+                    return RunRes::Error(format!("add_rule (decoy): {:?}", e));
+                }
+            }
+            let decoy_facts = build_facts(c);
+            let _ = engine.execute_parallel(&decoy, &decoy_facts, false);
+            for m in marks.iter() {
+                m.store(0, Ordering::SeqCst);
             }
         }
         match engine.execute_parallel(&kb, &facts, false) {
